@@ -1,5 +1,6 @@
 // C18 - isequal / isclose are exact comparison oracles: shape-aware, symmetric, total (E1; built with and without NDEBUG)
 #include "nmtools/array/ndarray.hpp"
+#include "nmtools/array/ndarray/fixed.hpp"
 #include "nmtools/utility/isequal.hpp"
 #include "nmtools/utility/isclose.hpp"
 #include "nmtools/array/view/transpose.hpp"
@@ -49,6 +50,9 @@ void nmc_enumerate(const nmc::Tier& t, const nmc::Sink& emit) {
     for (long ta = 0; ta < 5; ta++) for (long tb = 0; tb < 5; tb++) for (long form = 0; form < 2; form++)
         for (long i = 0; i < mix_grid_size(ta); i++) for (long j = 0; j < mix_grid_size(tb); j++) for (long e = 0; e < 3; e++)
             emit(Case("closemix", {{ta, tb}, {form}, {i, j}, {e}}));
+    // operands whose SIZE is known at compile time (raw C arrays, fixed_ndarray): every ordered pair of the shapes (2,3), (3,2), (1,6), (6,1) - same element count, and for the
+    // unperturbed variant the same row-major contents - plus a perturbed element; a comparison that looks at the fixed sizes instead of the shapes answers true (seeded change m18d)
+    for (long ia = 0; ia < 4; ia++) for (long ib = 0; ib < 4; ib++) for (long kind = 0; kind < 2; kind++) for (long p = -1; p < 6; p += (p == -1 ? 1 : 5)) emit(Case("ndfix", {{ia, ib}, {kind}, {p}}));
     // isclose over wrapped operands with an EXPLICIT tolerance: form (0 maybe<double>, 1 either<none,double> right alternatives, 2 either<double,none> left alternatives,
     // 3 tuple<double,double>, 4 maybe<ndarray>, 5 either<int-list,double-array> right alternatives) x (difference, eps) pairs on either side of the tolerance and on either
     // side of the DEFAULT 1e-6 (a recursive call that forgets to forward eps compares with the default; seeded change m18c)
@@ -152,6 +156,27 @@ Outcome nmc_execute(const Case& c) {
         bool want = c.a[2][0] && ra.shape == rb.shape;
         int got = eq(a, mb), rev = eq(mb, a);
         return decide("isequal(ndarray,maybe<ndarray>)", got, rev, want, true, nmc::hash_vec(c.a[0]) ^ nmc::mix(nmc::hash_vec(c.a[1])) ^ (uint64_t)c.a[2][0]);
+    }
+    if (c.op == "ndfix") {
+        long ia = c.a[0][0], ib = c.a[0][1], kind = c.a[1][0], p = c.a[2][0];
+        static const long SH[4][2] = {{2, 3}, {3, 2}, {1, 6}, {6, 1}};
+        const bool want = ia == ib && p < 0;
+        int got = -1, rev = -1, gotc = -1;
+        auto with_shape = [&](long i, auto&& f) { switch (i) { case 0: return f(meta::ct_v<2>, meta::ct_v<3>); case 1: return f(meta::ct_v<3>, meta::ct_v<2>); case 2: return f(meta::ct_v<1>, meta::ct_v<6>); default: return f(meta::ct_v<6>, meta::ct_v<1>); } };
+        with_shape(ia, [&](auto ra, auto ca) { return with_shape(ib, [&](auto rb, auto cb) {
+            constexpr size_t RA = decltype(ra)::value, CA = decltype(ca)::value, RB = decltype(rb)::value, CB = decltype(cb)::value;
+            auto run = [&](auto& a, auto& b) {
+                long k = 0; for (size_t i = 0; i < RA; i++) for (size_t j = 0; j < CA; j++) nm::at(a, i, j) = (int)(++k);
+                k = 0; for (size_t i = 0; i < RB; i++) for (size_t j = 0; j < CB; j++) { ++k; nm::at(b, i, j) = (int)(k + ((k - 1) == p ? 100 : 0)); }
+                got = eq(a, b); rev = eq(b, a); gotc = utils::isclose(a, b, 1e-3) ? 1 : 0;
+            };
+            if (kind == 0) { int a[RA][CA]; int b[RB][CB]; run(a, b); }
+            else { na::fixed_ndarray<int, RA, CA> a; na::fixed_ndarray<int, RB, CB> b; run(a, b); }
+            return 0; }); });
+        Outcome o = decide(kind == 0 ? "isequal(raw array, raw array)" : "isequal(fixed_ndarray, fixed_ndarray)", got, rev, want, true, (uint64_t)(ia * 4 + ib) * 64 + (uint64_t)(p + 2) * 3 + (uint64_t)kind + 9000);
+        if (!o.fail.empty()) { o.fail += std::string("  [shapes (") + std::to_string(SH[ia][0]) + "," + std::to_string(SH[ia][1]) + ") vs (" + std::to_string(SH[ib][0]) + "," + std::to_string(SH[ib][1]) + ")]"; return o; }
+        if (gotc >= 0 && gotc != (want ? 1 : 0)) return Outcome::bad("wrong", std::string("isclose of two fixed-size operands returned ") + (gotc ? "true" : "false"), true, o.outcome);
+        return o;
     }
     if (c.op == "closewrap") {
         static const double DELTA[6] = {0.5, 0.5, 1e-8, 1e-8, 0.0, 3e-7}, EPS[6] = {1.0, 0.25, 1e-9, 1e-6, 1e-9, 1e-7};
